@@ -74,10 +74,38 @@ fn extreme_item(seed: u64, i: u64, acc: &mut Acc) {
     }
 }
 
+/// Empty images (no rows) of absurd widths: the length 0 is a multiple of every width.
+fn empty_wide_suite() -> SuiteReport {
+    simple_suite("empty_images_of_extreme_width", true, |acc| {
+        let widths: Vec<usize> = vec![
+            1, 2, 9, 10, 1 << 16, 1 << 31, (1 << 31) + 1, 1 << 32, (1usize << 60) - 1, 1 << 60, (1 << 60) + 1, usize::MAX / 8, usize::MAX / 8 + 1, 1 << 61, (1 << 61) + 5, 1 << 62,
+            usize::MAX / 2, usize::MAX / 2 + 1, usize::MAX - 1, usize::MAX,
+        ];
+        for w in widths {
+            for s in [1u8, 7, 12] {
+                acc.count(true);
+                match guard(|| deblock(&[], w, s)) {
+                    Ok(v) if v.is_empty() => {}
+                    Ok(v) => {
+                        acc.fail(json!({"kind":"params","empty_width":w.to_string(),"strength":s}), format!("deblock of an empty image of width {} returned {} samples", w, v.len()));
+                        return;
+                    }
+                    Err(p) => {
+                        acc.fail(json!({"kind":"params","empty_width":w.to_string(),"strength":s}), format!("deblock(empty image, width {}, strength {}) panicked: {}", w, s, p));
+                        return;
+                    }
+                }
+            }
+        }
+        acc.sample(|| json!({"empty_images": "height 0, widths up to usize::MAX"}));
+    })
+}
+
 pub fn run(ctx: &Ctx) -> i32 {
     let (wmax, hmax) = ctx.tier.pick((96u64, 64u64), (300u64, 200u64));
     let seed = ctx.seed;
     let mut reports = vec![super::regression_suite(ctx), table_suite()];
+    reports.push(empty_wide_suite());
     reports.push(exhaustive_suite(ctx, "extreme_sizes", 384, &move |i, acc| extreme_item(seed, i, acc)));
     reports.push(exhaustive_suite(ctx, "size_strength_grid", wmax * (hmax + 1), &move |i, acc| grid_item(seed, wmax, i, acc)));
     let mut extra = Map::new();
@@ -105,6 +133,10 @@ pub fn replay(suite: &str, case: &Value) -> Option<Verdict> {
                 Err(m) => Verdict::fail(m),
             })
         }
+        "empty_images_of_extreme_width" => Some(match empty_wide_suite().failure {
+            Some(f) => Verdict::fail(f.msg),
+            None => Verdict::pass(true, 0),
+        }),
         "table_j2" => Some(match table_suite().failure {
             Some(f) => Verdict::fail(f.msg),
             None => Verdict::pass(true, 0),
